@@ -955,7 +955,7 @@ def double_to_int(f):
 
 
 def pytype_of(x):
-    vt = getattr(x, "_vt_pytype", None)
+    vt = getattr(type(x), "_vt_pytype", None)
     if vt is not None:
         return vt
     t = getattr(x, "pytype", None)
